@@ -276,7 +276,10 @@ class CallMixin:
                  "numpy.sqrt": lambda r: mk_fn("sqrt", r), "math.sqrt": lambda r: mk_fn("sqrt", r),
                  "numpy.abs": lambda r: mk_fn("abs", r), "builtins.abs": lambda r: mk_fn("abs", r),
                  "numpy.absolute": lambda r: mk_fn("abs", r), "math.fabs": lambda r: mk_fn("abs", r),
-                 "numpy.log10": lambda r: mk_log(r) / mk_log(Rat.const(10)),
+                 "numpy.log10": lambda r: mk_log(r) / mk_log(Rat.const(10)), "math.log10": lambda r: mk_log(r) / mk_log(Rat.const(10)),
+                 "numpy.log2": lambda r: mk_log(r) / mk_log(Rat.const(2)), "math.log2": lambda r: mk_log(r) / mk_log(Rat.const(2)),
+                 "numpy.square": lambda r: r * r, "numpy.reciprocal": lambda r: Rat.const(1) / r, "numpy.negative": lambda r: -r,
+                 "numpy.cbrt": lambda r: mk_pow(r, Rat.const(1) / 3), "operator.neg": lambda r: -r, "operator.abs": lambda r: mk_fn("abs", r),
                  "numpy.floor": lambda r: mk_fn("floor", r), "math.floor": lambda r: mk_fn("floor", r),
                  "builtins.float": lambda r: r, "numpy.float64": lambda r: r,
                  "builtins.int": lambda r: r if r.as_int() is not None or _is_int(r) else mk_fn("int", r),
@@ -292,11 +295,42 @@ class CallMixin:
                     sa.meta["addends"] = list(a0.addends)
                 return Num(res)
             return self.map_num(a0, unary[d], frame, node)
-        binary = {"numpy.multiply": ast.Mult(), "numpy.divide": ast.Div(), "numpy.subtract": ast.Sub(),
-                  "numpy.add": ast.Add(), "numpy.power": ast.Pow(), "builtins.pow": ast.Pow(), "math.pow": ast.Pow()}
+        binary = {"numpy.multiply": ast.Mult(), "numpy.divide": ast.Div(), "numpy.subtract": ast.Sub(), "numpy.true_divide": ast.Div(),
+                  "numpy.add": ast.Add(), "numpy.power": ast.Pow(), "builtins.pow": ast.Pow(), "math.pow": ast.Pow(), "numpy.float_power": ast.Pow(),
+                  "operator.mul": ast.Mult(), "operator.truediv": ast.Div(), "operator.sub": ast.Sub(), "operator.add": ast.Add(), "operator.pow": ast.Pow()}
         if d in binary and len(args) == 2:
             return self.binop(binary[d], args[0], args[1], frame, node)
-        if d in ("builtins.sum", "numpy.sum"):
+        if d in ("math.log", "numpy.log") and len(args) == 2 and not kwargs:
+            a0, a1 = self.force(args[0], frame, node), self.force(args[1], frame, node)
+            if isinstance(a0, Num) and isinstance(a1, Num):
+                return Num(mk_log(a0.r) / mk_log(a1.r))
+        if d == "numpy.hypot" and len(args) == 2:
+            a0, a1 = self.force(args[0], frame, node), self.force(args[1], frame, node)
+            if isinstance(a0, Num) and isinstance(a1, Num):
+                return Num(mk_fn("sqrt", a0.r * a0.r + a1.r * a1.r))
+        if d in ("numpy.mean", "numpy.average", "statistics.mean", "statistics.fmean") and len(args) == 1 and not kwargs:
+            a0 = self.force(args[0], frame, node)
+            if isinstance(a0, (ListV, TupV)):
+                tot = self.sum_of(a0, frame, node)
+                n = self.length(a0, frame, node)
+                if isinstance(tot, Num):
+                    return Num(tot.r / n)
+        if d in ("numpy.prod", "math.prod") and len(args) == 1 and not kwargs:
+            items = self.as_items(self.force(args[0], frame, node), frame, node)
+            if items is not None and all(isinstance(x, Num) for x in items):
+                r = Rat.const(1)
+                for x in items:
+                    r = r * x.r
+                return Num(r)
+        if d in ("numpy.dot", "numpy.inner", "numpy.vdot") and len(args) == 2 and not kwargs:
+            la = self.as_items(self.force(args[0], frame, node), frame, node)
+            lb = self.as_items(self.force(args[1], frame, node), frame, node)
+            if la is not None and lb is not None and len(la) == len(lb) and all(isinstance(x, Num) for x in la + lb):
+                r = Rat.const(0)
+                for x, y in zip(la, lb):
+                    r = r + x.r * y.r
+                return Num(r)
+        if d in ("builtins.sum", "numpy.sum", "math.fsum", "numpy.add.reduce"):
             r = self.sum_of(args[0], frame, node)
             if len(args) > 1:
                 r = self.binop(ast.Add(), r, args[1], frame, node)
@@ -471,6 +505,9 @@ class CallMixin:
             return Num(Rat.atom(a))
         if d in ("builtins.type", "builtins.isinstance", "builtins.hasattr"):
             return BoolV(None, (d, ) + tuple(key_str(val_key(a)) for a in args)) if d != "builtins.type" else Opaque("type")
+        if d.startswith(("logging.", "warnings.")) or (isinstance(self_val, Opaque) and self_val.desc.startswith(("logging.", "logger"))):
+            self.ctx.event("log", d, frame.loc(node))
+            return NONE    # diagnostics: no value, no effect on the model
         if d == "builtins.print":
             return NONE
         if d == "builtins.str" or d == "builtins.repr":
